@@ -103,8 +103,8 @@ bool PyTreeSpec::FlattenIntoImpl(const py::handle& handle,
                 {
                     const scoped_critical_section cs{handle};
                     const auto dict = py::reinterpret_borrow<py::dict>(handle);
-                    node.arity = DictGetSize(dict);
                     keys = DictKeys(dict);
+                    node.arity = ListGetSize(keys);  // the keys that are visited
                     if (node.kind != PyTreeKind::OrderedDict) [[likely]] {
                         node.original_keys = py::getattr(keys, Py_Get_ID(copy))();
                         if constexpr (DictShouldBeSorted) {
@@ -367,8 +367,8 @@ bool PyTreeSpec::FlattenIntoWithPathImpl(const py::handle& handle,
             case PyTreeKind::DefaultDict: {
                 const scoped_critical_section cs{handle};
                 const auto dict = py::reinterpret_borrow<py::dict>(handle);
-                node.arity = DictGetSize(dict);
                 py::list keys = DictKeys(dict);
+                node.arity = ListGetSize(keys);  // the keys that are visited
                 if (node.kind != PyTreeKind::OrderedDict) [[likely]] {
                     node.original_keys = py::getattr(keys, Py_Get_ID(copy))();
                     if constexpr (DictShouldBeSorted) {
